@@ -340,9 +340,11 @@ def classify(sc, world, cls, probs):
     if cls != "quiescent":
         return None
     if all(p.startswith("producer ") for p in probs) and not f["connected"] and not f["in_map"]:
-        # only a producer that started its wait AFTER the channel had left the map
+        # only a producer that started its wait AFTER handle_close had set connected = False
+        # (and given its notify)
         ev = world.sched.events
-        closed_at = min([i for i, e in enumerate(ev) if e[1] == "map_del"], default=None)
+        closed_at = min([i for i, e in enumerate(ev)
+                         if (e[1] == "decide" and e[2][0] == "connected") or e[1] == "map_del"], default=None)
         ob = object.__getattribute__(world.channel, "outbuf_lock").name
         names = [n for n, where in parked(world).items() if where == "outbuf_cv"]
         last_wait = [max([i for i, e in enumerate(ev) if e[0] == n and e[1] == "wait" and e[2] == ob], default=-1)
@@ -770,19 +772,19 @@ EXPECTED_SHAPE = {
         'pull_trigger() R:outbuf_lock m:wait call:wait() } } } }'
     ),
     'channel.py:HTTPChannel.service': (
-        '{ R:requests if v:request { v:request } else { v:request } try { if R:connected { v:task m:service c'
-        'all:service() } else { v:task } } except:ClientDisconnected { v:task R:request v:task } except:Excep'
-        'tion { v:task R:request if not v:task { if { v:traceback } else { } v:request v:request v:InternalSe'
-        'rverError v:body v:err_request v:req_version v:err_request try { v:req_headers v:err_request } excep'
-        't:KeyError { } v:err_request try { v:task m:service call:service() } except:ClientDisconnected { v:t'
-        'ask } } else { v:task } } if v:task { R:requests_lock with { W:close_when_flushed for R:requests { v'
-        ':request m:close call:close() } W:requests } } else { if v:len R:requests cmp:Gt:1 { m:_flush_outbuf'
-        's_below_high_watermark call:_flush_outbufs_below_high_watermark() } if R:current_outbuf_count cmp:Gt'
-        ':0 { W:current_outbuf_count } v:request m:close call:close() R:requests_lock with { R:requests m:pop'
-        ' call:pop() if and( R:connected , R:requests , ) { m:add_task call:add_task() } else { if and( R:con'
-        'nected , R:request cmp:IsNot:None , R:request , R:request , not R:sent_continue , ) { m:send_continu'
-        'e call:send_continue(do_close=False) } } } } if R:connected { m:pull_trigger call:pull_trigger() } v'
-        ':time }'
+        '{ R:requests if v:request { v:request } else { v:request } try { if and( R:connected , not R:will_cl'
+        'ose , ) { v:task m:service call:service() } else { v:task } } except:ClientDisconnected { v:task R:r'
+        'equest v:task } except:Exception { v:task R:request if not v:task { if { v:traceback } else { } v:re'
+        'quest v:request v:InternalServerError v:body v:err_request v:req_version v:err_request try { v:req_h'
+        'eaders v:err_request } except:KeyError { } v:err_request try { v:task m:service call:service() } exc'
+        'ept:ClientDisconnected { v:task } } else { v:task } } if v:task { R:requests_lock with { W:close_whe'
+        'n_flushed for R:requests { v:request m:close call:close() } W:requests } } else { if v:len R:request'
+        's cmp:Gt:1 { m:_flush_outbufs_below_high_watermark call:_flush_outbufs_below_high_watermark() } if R'
+        ':current_outbuf_count cmp:Gt:0 { W:current_outbuf_count } v:request m:close call:close() R:requests_'
+        'lock with { R:requests m:pop call:pop() if and( R:connected , R:requests , ) { m:add_task call:add_t'
+        'ask() } else { if and( R:connected , R:request cmp:IsNot:None , R:request , R:request , not R:sent_c'
+        'ontinue , ) { m:send_continue call:send_continue(do_close=False) } } } } if R:connected { m:pull_tri'
+        'gger call:pull_trigger() } v:time }'
     ),
     'task.py:ThreadedTaskDispatcher.handler_thread': (
         '{ while { R:lock with { while and( not R:queue , R:stop_count cmp:Eq:0 , ) { R:queue_cv m:wait call:'
